@@ -60,6 +60,13 @@ def cmd_setup(_a):
         bad += 1
     json.load(open(os.path.join(ROOT, "MANIFEST.json")))
     json.load(open(os.path.join(ROOT, "known_findings.json")))
+    try:                                                                    # the proofs, strictly
+        from harness import tlc
+        r = tlc.prove(strict=True)
+        print(f"proofs: {r['discharged']}/{r['obligations']} obligations discharged (stretch {r['stretch_used']})")
+    except Exception as e:  # noqa: BLE001
+        print("proofs FAILED:", str(e)[:300])
+        bad += 1
     p = subprocess.run([os.path.join(ROOT, "tools", "clause_owners.py")], capture_output=True, text=True)     # no clause without an owning check
     if p.returncode != 0:
         print(p.stdout[-1500:])
